@@ -3,15 +3,22 @@ import JL.Tie.get_str_key
 /-! tie: `get_key`, as translated from the crate's current source, is the model's function - for every input -/
 namespace JL.Tie
 open JL
+set_option linter.unusedSimpArgs false  -- which of the listed facts are used depends on how the source is spelled
 
+/- by cases on the key and on the kind of `data` (the model's own case analysis), each case closed by unfolding the library
+calls and rewriting with the ties of the callees; where the model maps over the result of `Data.get`, that result is split too -/
 theorem get_key (data : Json) (k : Data.Key) : Gen.get_key data k = Data.getKey data k := by
   unfold Gen.get_key Data.getKey
   cases k with
-  | null => rfl
-  | string s => exact get_str_key data s
+  | null => first | rfl | simp [rs]
+  | string s => first | exact get_str_key data s | simp [rs, get_str_key]
   | number i =>
-      cases data <;> simp only [get_str_key, get] <;> first
-        | rfl
-        | (simp only [rs]; rename_i s; cases Data.get s i <;> simp)
+      cases data with
+      | null => first | rfl | simp [rs]
+      | bool b => first | rfl | simp [rs]
+      | num n => first | rfl | simp [rs]
+      | obj kvs => first | exact get_str_key _ _ | simp [rs, get_str_key]
+      | arr xs => first | exact get xs i | (cases hg : Data.get xs i <;> simp [rs, get, hg])
+      | str s => cases hg : Data.get s i <;> simp [rs, get, hg]
 
 end JL.Tie
